@@ -177,7 +177,7 @@ func resOf(err error) string {
 func (rc *recorder) logCall(op string, vid int, ifmatch string, class string, err error) {
 	*rc.ncalls++
 	*rc.events = append(*rc.events, map[string]any{"e": "call", "op": op, "key": []string{realKey}, "vid": vid, "ifmatch": ifmatch,
-		"class": class, "upload": 0, "res": resOf(err), "check": false, "after": []any{}})
+		"class": class, "upload": 0, "res": resOf(err), "check": false, "judge": true, "after": []any{}})
 }
 
 func (rc *recorder) vid(v *string) int {
